@@ -205,6 +205,12 @@ def run_case(case, tier):
             rec.setdefault("results_model_highs", {})[name] = zh
             fam = name.split(":")[0]
             data = {"iso": case["iso"], "round": k + 1, "perturbation": name, "family": fam, "z": z0, "z_perturbed": z, "z_model_highs": zh0, "z_model_highs_perturbed": zh, "tag": case.get("tag")}
+            if z is not None:
+                rel = abs(z - z0) / max(1.0, abs(z0))
+                data["relative_change_reported"] = rel
+                data["size"] = "within_1e-3_relative" if rel <= 1e-3 else "substantial"
+            else:
+                data["size"] = "solve_failed"
             # (b) the model the code builds, solved exactly: decides whether the *formulation* obeys the law
             formulation_bad = None
             if zh0 is not None:
